@@ -6,7 +6,6 @@ from amaranth.hdl import AlreadyElaborated
 from typing import Optional, Any, final
 from collections.abc import Iterable
 
-from transactron.utils.amaranth_ext.elaboratables import OneHotMux
 from transactron.utils.amaranth_ext.coding import Encoder
 from transactron.core import TModule
 
@@ -549,12 +548,13 @@ class MultiportILVTMemory(BaseMultiportMemory):
                     with m.Case(value):
                         m.d.comb += [bank_data.eq(m.submodules[f"bank_{value}"].read_ports[index].data)]
 
-            mux_inputs = [
-                ((write_addr_bypass[idx] == read_addr_bypass) & write_en_bypass[idx], write_data_bypass[idx])
-                for idx, write_port in enumerate(self.write_ports)
-                if write_port in read_port.transparent_for
-            ]
-            new_data = OneHotMux.create(m, mux_inputs, bank_data)
+            new_data = bank_data
+            for idx, write_port in enumerate(self.write_ports):
+                if write_port in read_port.transparent_for:
+                    hit = write_addr_bypass[idx] == read_addr_bypass
+                    granule = write_port.granularity or len(bank_data)
+                    mask = Cat((bit & hit).replicate(granule) for bit in write_en_bypass[idx])
+                    new_data = (new_data & ~mask) | (write_data_bypass[idx] & mask)
 
             sync_data = Signal.like(read_port.data, reset_less=True)
             m.d.sync += sync_data.eq(read_port.data)
